@@ -116,8 +116,9 @@ Example hypotheses_satisfiable :
   committed run8 = [(4, 1%nat, (2, 5)); (4, 2%nat, (4, 6))] /\
   elected run8 = [(4, 1, [(2, 5)]); (3, 3, []); (2, 1, [])].
 Proof.
-  pose proof run_facts as H. destruct run8_facts as [H8 [H8c H8e]].
-  split; [apply H|]. split; [apply H|]. split; [apply H|]. split; [apply H|].
+  destruct run8_facts as [H8 [H8c H8e]].
+  split; [exact (proj1 run_facts)|]. split; [exact reachable_run_committed|].
+  split; [exact reachable_run_followers|]. split; [exact reachable_run_crashed|].
   split; [exact H8|].
   rewrite H8c, H8e. vm_compute. repeat split; reflexivity.
 Qed.
